@@ -11,6 +11,12 @@ import ClarabelProofs.Lemmas.NonsymGenPow
 import ClarabelProofs.Lemmas.NonsymPowConj
 import ClarabelProofs.Lemmas.NonsymExp3
 import ClarabelProofs.Lemmas.NonsymChol
+import ClarabelProofs.Lemmas.NonsymPow3
+import ClarabelProofs.Lemmas.NonsymPowNewton
+import ClarabelProofs.Lemmas.NonsymGenPowHess
+import ClarabelProofs.Lemmas.NonsymGenPowScaling
+import ClarabelProofs.Lemmas.NonsymExpStart
+import ClarabelProofs.Lemmas.NonsymGenPowNewton
 
 namespace Clarabel.C14
 open Clarabel
@@ -330,14 +336,18 @@ example : PowPrimalInterior (1 / 2) 1 1 0 := by
 `x > 0` is an exact root of the Newton–Raphson target `f0` (model: `Pow.nrF0`), then
 `g = gradient_primal(s)` built from `g[2] = ±x` satisfies `-g ∈ int K*` and `∇f*(-g) = -s`.
 
-**Finding (known, NR-START-RIGHT-OF-ROOT).**  The hypothesis is *not* met by the code: the start
-`x0 = -1/s₃ + (2s₃ + √(φ²/s₃² + 3φ))/(φ - s₃²)` (`Pow.nrX0`) is an upper bound of the root
+**Finding (NR-START-RIGHT-OF-ROOT, repaired in /repo 54b486f; the text below describes the PRE-FIX
+code, model `Pow.nrX0Old`).**  The hypothesis was *not* met by the old code: the start
+`x0 = -1/s₃ + (2s₃ + √(φ²/s₃² + 3φ))/(φ - s₃²)` (`Pow.nrX0Old`) is an upper bound of the root
 (`x0/root ∈ [1, 2.25]`, equal to the root exactly when `a = 1/2`), `f0` is decreasing, so the first
 Newton step is negative and `newton_raphson_onesided` returns `x0` unrefined.  Measured on the
 implementation (and reproduced bit-for-bit by the model at `Float`): `a = 0.3, s = (1,2,-0.5)`
 gives `g = (-1.43833, -1.01139, -0.92220)` with `|g[2]| = x0`, while the root is `0.86605`;
-`∇f*(-g) = (-1.00705, -2.0234, 0.4633) ≠ -s`.  No kernel-checked inequality is given for this
-(irrational exponents); the harness oracle `pow.gradient_primal` carries it. -/
+`∇f*(-g) = (-1.00705, -2.0234, 0.4633) ≠ -s`.  Round 3: the inequality `f0(x0) ≤ 0` and the
+consequence `newtonRaphson = (x0, 1 pass)` are now kernel-checked for every `a ∈ (0,1)` and every
+interior point (`pow_newton_start_right_of_root`, `pow_gradient_primal_unrefined`), together with two
+provably one-sided replacement starts (`pow_newton_onesided_repair`, `pow_newton_psi_start_repair`);
+the size of the resulting error stays with the harness oracle `pow.gradient_primal`. -/
 theorem pow_conjugacy {a s0 s1 s2 x : ℝ} (ha0 : 0 < a) (ha1 : a < 1) (h0 : 0 < s0) (h1 : 0 < s1)
     (h2 : s2 ≠ 0) (hx : 0 < x)
     (hf : Pow.nrF0 |s2| (powf s0 (2 * a) * powf s1 (2 - a * 2)) a x = 0) :
@@ -578,5 +588,530 @@ theorem pd_fallback (Hd : Sym3 ℝ) (st zt s z : V3 ℝ)
   unfold usePrimalDualScaling
   simp only [h, useDualScaling]
   rfl
+
+
+/-! # Round 3 -/
+
+/-! ## Power cone: third-order correction -/
+
+/-- [R] `C14.third_order` (power cone, every exponent `a ∈ (0,1)`).  The vector computed by
+`higher_correction` after the solve `H u = Δs` is one half of the third derivative of the dual barrier
+contracted with `u` and `v`: for every interior `z` and all `u, v`,
+`d/dt [ H_dual(z + t u) v ]_{t=0} = 2 · higher_correction_of(a; z, u, v)` (all three rows), i.e.
+`η = +½ ∇³f*(z)[u, v]`; `combined_ds_shift` subtracts it (`pow_combined_ds_shift`), which gives the
+`-½ ∇³f*(z)[H⁻¹Δs, Δz]` of the property text. -/
+theorem pow_third_order {a z0 z1 z2 : ℝ} (ha0 : 0 < a) (ha1 : a < 1) (h : PowDualInterior a z0 z1 z2)
+    (u0 u1 u2 v0 v1 v2 : ℝ) :
+    let η := Pow.higherCorrectionOf a (z0, z1, z2) (u0, u1, u2) (v0, v1, v2)
+    HasDerivAt (fun t => ((Pow.hessDual a (z0 + t * u0, z1 + t * u1, z2 + t * u2)).mul (v0, v1, v2)).1) (2 * η.1) 0 ∧
+    HasDerivAt (fun t => ((Pow.hessDual a (z0 + t * u0, z1 + t * u1, z2 + t * u2)).mul (v0, v1, v2)).2.1) (2 * η.2.1) 0 ∧
+    HasDerivAt (fun t => ((Pow.hessDual a (z0 + t * u0, z1 + t * u1, z2 + t * u2)).mul (v0, v1, v2)).2.2) (2 * η.2.2) 0 := by
+  have hi := (pow_dualInt_iff ha0 ha1 z0 z1 z2).mpr h
+  exact ⟨Pow.third_row0 u0 u1 u2 v0 v1 v2 hi, Pow.third_row1 u0 u1 u2 v0 v1 v2 hi,
+    Pow.third_row2 u0 u1 u2 v0 v1 v2 hi⟩
+
+/-- [F] the `u` of the power cone's `higher_correction` is `H⁻¹Δs`: when the explicit 3×3 Cholesky
+factorisation of the stored `H_dual` succeeds, the explicit solve returns `u` with `H u = Δs` and
+`higher_correction = higher_correction_of(a; z, u, v)`; when it fails the correction is zero. -/
+theorem pow_higher_correction_solve (a : ℝ) (H : Sym3 ℝ) (z ds v : V3 ℝ) :
+    (∀ L, Sym3.choleskyFactor H = (true, L) →
+      H.mul (Sym3.choleskySolve L ds) = ds ∧
+      Pow.higherCorrection a H z ds v = Pow.higherCorrectionOf a z (Sym3.choleskySolve L ds) v) ∧
+    (∀ L, Sym3.choleskyFactor H = (false, L) → Pow.higherCorrection a H z ds v = (0, 0, 0)) := by
+  constructor
+  · intro L hL
+    refine ⟨Sym3.cholesky_solve_correct H L ds hL, ?_⟩
+    rw [Pow.higherCorrection_eq, hL]
+    rfl
+  · intro L hL
+    rw [Pow.higherCorrection_eq, hL]
+    rfl
+
+/-- [S] `combined_ds_shift` of the 3-d cones: `shift = σμ·grad − η` with
+`η = higher_correction(Δs := step_s, v := step_z)`; with `exp_third_order` / `pow_third_order` and the
+gradient theorems this is `σμ ∇f*(z) − ½ ∇³f*(z)[H⁻¹Δs, Δz]`. -/
+theorem combined_ds_shift_eq (a σμ : ℝ) (H : Sym3 ℝ) (grad z dz ds : V3 ℝ) :
+    Exp.combinedDsShift H grad z dz ds σμ =
+      (grad.1 * σμ - (Exp.higherCorrection H z ds dz).1, grad.2.1 * σμ - (Exp.higherCorrection H z ds dz).2.1,
+        grad.2.2 * σμ - (Exp.higherCorrection H z ds dz).2.2) ∧
+    Pow.combinedDsShift a H grad z dz ds σμ =
+      (grad.1 * σμ - (Pow.higherCorrection a H z ds dz).1, grad.2.1 * σμ - (Pow.higherCorrection a H z ds dz).2.1,
+        grad.2.2 * σμ - (Pow.higherCorrection a H z ds dz).2.2) := ⟨rfl, rfl⟩
+
+/-! ## `newton_raphson_onesided` and the power cone's scalar solve -/
+
+/-- [F] the loop of `newton_raphson_onesided`: (i) a root of `f0` is a fixed point — the loop returns
+it after one pass; (ii) where `f0 ≤ 0` and `f1 ≤ 0` (right of the root of a decreasing target) the loop
+returns its start unrefined after one pass; (iii) the stopping rule: whenever fewer than the allowed
+passes were used, one of the three tests `dx < ε`, `|dx/x| < √ε`, `|f1| < ε` holds at the returned
+point. -/
+theorem newton_loop_basic (f0 f1 : ℝ → ℝ) (fuel : Nat) (x : ℝ) (it : Nat) :
+    (f0 x = 0 → Nonsym.newtonRaphsonOnesided f0 f1 (fuel + 1) x it = (x, it + 1)) ∧
+    (f0 x ≤ 0 → f1 x ≤ 0 → Nonsym.newtonRaphsonOnesided f0 f1 (fuel + 1) x it = (x, it + 1)) ∧
+    ((Nonsym.newtonRaphsonOnesided f0 f1 fuel x it).2 = it + fuel ∨
+      Nonsym.NewtonStopped f0 f1 (Nonsym.newtonRaphsonOnesided f0 f1 fuel x it).1) :=
+  ⟨Nonsym.newton_fixed_point f0 f1 fuel x it, Nonsym.newton_stop_right f0 f1 fuel x it,
+    Nonsym.newton_loop_stopped f0 f1 fuel x it⟩
+
+/-- [F] one-sided Newton.  If on `[lo, r]` the target is non-negative with negative derivative `f1`
+and lies above its tangents at the root `r` (`f0 y + f1 y (r − y) ≤ 0`; true for a convex decreasing
+`f0` with `f0 r = 0`), then from any start `x ∈ [lo, r]` every iterate moves right and never passes
+the root: the returned value lies in `[x, r]`, for any number of passes. -/
+theorem newton_onesided {f0 f1 : ℝ → ℝ} {lo r : ℝ}
+    (H : ∀ y, lo ≤ y → y ≤ r → f1 y < 0 ∧ 0 ≤ f0 y ∧ f0 y + f1 y * (r - y) ≤ 0)
+    (fuel : Nat) (x : ℝ) (it : Nat) (hlo : lo ≤ x) (hxr : x ≤ r) :
+    x ≤ (Nonsym.newtonRaphsonOnesided f0 f1 fuel x it).1 ∧ (Nonsym.newtonRaphsonOnesided f0 f1 fuel x it).1 ≤ r :=
+  Nonsym.newton_loop_onesided H fuel x it hlo hxr
+
+example : ∀ y : ℝ, 0 ≤ y → y ≤ 1 →
+    (fun _ : ℝ => (-1 : ℝ)) y < 0 ∧ 0 ≤ (fun t : ℝ => 1 - t) y ∧ (fun t : ℝ => 1 - t) y + (fun _ : ℝ => (-1 : ℝ)) y * (1 - y) ≤ 0 := by
+  intro y _ h1
+  refine ⟨by norm_num, by simp only; linarith, by simp only; linarith⟩
+
+/-- [R] the target of `_newton_raphson_powcone`: for every `a ∈ (0,1)`, `s₃ > 0` and `x > 0`,
+`f1` is the derivative of `f0`, it is negative (the target is strictly decreasing), monotone (the
+target is convex) and the target lies above its tangents. -/
+theorem pow_newton_target {a s3 phi : ℝ} (ha0 : 0 < a) (ha1 : a < 1) (h3 : 0 < s3) :
+    (∀ x, 0 < x → HasDerivAt (Pow.nrF0 s3 phi a) (Pow.nrF1 s3 a x) x ∧ Pow.nrF1 s3 a x < 0) ∧
+    StrictAntiOn (Pow.nrF0 s3 phi a) (Set.Ioi 0) ∧ ConvexOn ℝ (Set.Ioi 0) (Pow.nrF0 s3 phi a) ∧
+    (∀ x r, 0 < x → x ≤ r → Pow.nrF0 s3 phi a x + Pow.nrF1 s3 a x * (r - x) ≤ Pow.nrF0 s3 phi a r) :=
+  ⟨fun _ hx => ⟨Pow.nrF0_hasDerivAt ha0 ha1 h3 hx, Pow.nrF1_neg ha0 ha1 h3 hx⟩,
+    Pow.nrF0_strictAnti ha0 ha1 h3, Pow.nrF0_convexOn ha0 ha1 h3,
+    fun _ _ hx hxr => Pow.nrF0_tangent ha0 ha1 h3 hx hxr⟩
+
+/-- [R] **Finding NR-START-RIGHT-OF-ROOT as a theorem about the PRE-FIX code** (`Pow.nrX0Old`,
+`Pow.newtonRaphsonOld`: `_newton_raphson_powcone` before /repo commit 54b486f; the current code is
+covered by `pow_newton_onesided_code`).  Region: *every* exponent `a ∈ (0,1)`, every
+`s₃ > 0`, every `φ > s₃²`, i.e. every interior `s` with `s₃ ≠ 0`).  The start
+`x0 = −1/s₃ + (2s₃ + √(φ²/s₃² + 3φ))/(φ − s₃²)` is positive and satisfies `f0(x0) ≤ 0` (weighted AM–GM;
+`x0` solves `φ(x² + 2x/s₃) = (xs₃+3)²`, the root equation for `a = ½`, where `f0(x0) = 0` exactly),
+so the first Newton step is `≤ 0` and `_newton_raphson_powcone` returns `(x0, 1 pass)`: the iteration
+never refined the start. -/
+theorem pow_newton_start_right_of_root {a s3 phi : ℝ} (ha0 : 0 < a) (ha1 : a < 1) (h3 : 0 < s3)
+    (hphi : s3 * s3 < phi) :
+    0 < Pow.nrX0Old s3 phi ∧ Pow.nrF0 s3 phi a (Pow.nrX0Old s3 phi) ≤ 0 ∧
+    Pow.nrF0 s3 phi (1 / 2) (Pow.nrX0Old s3 phi) = 0 ∧
+    Pow.newtonRaphsonOld s3 phi a = (Pow.nrX0Old s3 phi, 1) :=
+  ⟨(Pow.nrF0_start_nonpos ha0 ha1 h3 hphi).1, (Pow.nrF0_start_nonpos ha0 ha1 h3 hphi).2,
+    Pow.nrF0_start_half h3 hphi, Pow.newtonRaphsonOld_returns_start ha0 ha1 h3 hphi⟩
+
+example : (0 : ℝ) < 1 / 3 ∧ (1 / 3 : ℝ) < 1 ∧ (0 : ℝ) < 1 ∧ (1 : ℝ) * 1 < 2 := by norm_num
+
+/-- [R] (PRE-FIX code, before /repo 54b486f) consequence for the old `PowerCone::gradient_primal`
+(`Pow.gradientPrimalOld`): at every interior `s` with `|s₃| > ε` the returned gradient was built from
+the *unrefined* start, `g = gradient_primal_of(a; x0(|s₃|, φ), s)`. -/
+theorem pow_gradient_primal_unrefined {a s0 s1 s2 : ℝ} (ha0 : 0 < a) (ha1 : a < 1)
+    (hs : PowPrimalInterior a s0 s1 s2) (heps : FloatLike.eps < |s2|) :
+    Pow.gradientPrimalOld a (s0, s1, s2) =
+      Pow.gradientPrimalOf a (Pow.nrX0Old |s2| (powf s0 (2 * a) * powf s1 (2 - a * 2))) s0 s1 s2 := by
+  obtain ⟨h0, h1, hlt⟩ := hs
+  have h2 : 0 < |s2| := lt_trans Nonsym.real_eps_pos heps
+  have hphi : |s2| * |s2| < powf s0 (2 * a) * powf s1 (2 - a * 2) := by
+    simp only [Nonsym.real_powf_eq]
+    have e : (2 : ℝ) - a * 2 = 2 * (1 - a) := by ring
+    rw [e, Pow.rpow_two_mul h0, Pow.rpow_two_mul h1, ← mul_pow, ← sq]
+    exact pow_lt_pow_left₀ hlt (abs_nonneg _) (by norm_num)
+  unfold Pow.gradientPrimalOld
+  simp only [real_fabs_eq, if_pos heps]
+  rw [Pow.newtonRaphsonOld_returns_start ha0 ha1 h2 hphi]
+
+example : PowPrimalInterior (1 / 2) 1 1 (1 / 2) ∧ (FloatLike.eps : ℝ) < |(1 / 2 : ℝ)| := by
+  refine ⟨⟨by norm_num, by norm_num, ?_⟩, ?_⟩
+  · rw [Real.one_rpow, Real.one_rpow, abs_of_pos (by norm_num)]; norm_num
+  · rw [abs_of_pos (by norm_num)]
+    show ((2 : ℝ)⁻¹ ^ 52) < 1 / 2
+    norm_num
+
+/-- [R] every positive root of the target lies in `[2s₃/(φ−s₃²), x0]`; and **the repair**: with the
+start `x₁ = 2s₃/(φ − s₃²)` (`f0(x₁) ≥ 0`, because both logarithm arguments exceed `xs₃ + 2`) the same
+loop on the same `f0`, `f1` is one-sided for every `a ∈ (0,1)` — all iterates stay in `[x₁, root]`. -/
+theorem pow_newton_onesided_repair {a s3 phi r : ℝ} (ha0 : 0 < a) (ha1 : a < 1) (h3 : 0 < s3)
+    (hphi : s3 * s3 < phi) (hr : 0 < r) (hroot : Pow.nrF0 s3 phi a r = 0) :
+    (0 < 2 * s3 / (phi - s3 * s3) ∧ 0 ≤ Pow.nrF0 s3 phi a (2 * s3 / (phi - s3 * s3))) ∧
+    (2 * s3 / (phi - s3 * s3) ≤ r ∧ r ≤ Pow.nrX0Old s3 phi) ∧
+    (∀ fuel it : Nat,
+      2 * s3 / (phi - s3 * s3)
+          ≤ (Nonsym.newtonRaphsonOnesided (Pow.nrF0 s3 phi a) (Pow.nrF1 s3 a) fuel (2 * s3 / (phi - s3 * s3)) it).1 ∧
+        (Nonsym.newtonRaphsonOnesided (Pow.nrF0 s3 phi a) (Pow.nrF1 s3 a) fuel (2 * s3 / (phi - s3 * s3)) it).1 ≤ r) :=
+  ⟨Pow.nrF0_left_start_nonneg ha0 ha1 h3 hphi, Pow.root_bracket ha0 ha1 h3 hphi hr hroot,
+    fun fuel it => Pow.newton_from_left_start ha0 ha1 h3 hphi hr hroot fuel it⟩
+
+/-- non-vacuity of `hroot`: `a = ½`, `s₃ = 1`, `φ = 2`: the code's start is a positive root -/
+example : 0 < Pow.nrX0Old (1 : ℝ) 2 ∧ Pow.nrF0 (1 : ℝ) 2 (1 / 2) (Pow.nrX0Old 1 2) = 0 :=
+  ⟨(Pow.nrF0_start_nonpos (a := 1 / 2) (by norm_num) (by norm_num) (by norm_num) (by norm_num)).1,
+    Pow.nrF0_start_half (by norm_num) (by norm_num)⟩
+
+/-- [R] **a better one-sided start, exact where the present one is exact.**  With
+`ψ(a) = 1/(a² + (1−a)²) ∈ [1,2]` (the generalised power cone's `ψ = 1/Σαᵢ²` for `α = (a, 1−a)`) the
+start `x_ψ = −1/s₃ + (ψs₃ + √((φ/s₃² + ψ² − 1)φ))/(φ − s₃²)` (`Pow.nrStart`) is positive and has
+`f0(x_ψ) ≥ 0` for every `a ∈ (0,1)` (harmonic–geometric mean inequality + Jensen for `w ↦ w/(wc+1)`),
+coincides with the pre-fix start for `a = ½` (where that is the exact root) and *is* the code's start since /repo 54b486f (`Pow.nrX0_eq_start`), lies left of every root,
+and from it the loop is one-sided (all iterates in `[x_ψ, root]`). -/
+theorem pow_newton_psi_start_repair {a s3 phi : ℝ} (ha0 : 0 < a) (ha1 : a < 1) (h3 : 0 < s3)
+    (hphi : s3 * s3 < phi) :
+    (1 ≤ Pow.psiOf a ∧ Pow.psiOf a ≤ 2) ∧
+    (0 < Pow.nrStart (Pow.psiOf a) s3 phi ∧ 0 ≤ Pow.nrF0 s3 phi a (Pow.nrStart (Pow.psiOf a) s3 phi)) ∧
+    Pow.nrStart (Pow.psiOf (1 / 2)) s3 phi = Pow.nrX0Old s3 phi ∧
+    (∀ r, 0 < r → Pow.nrF0 s3 phi a r = 0 → ∀ fuel it : Nat,
+      Pow.nrStart (Pow.psiOf a) s3 phi ≤ r ∧
+      Pow.nrStart (Pow.psiOf a) s3 phi ≤
+        (Nonsym.newtonRaphsonOnesided (Pow.nrF0 s3 phi a) (Pow.nrF1 s3 a) fuel (Pow.nrStart (Pow.psiOf a) s3 phi) it).1 ∧
+      (Nonsym.newtonRaphsonOnesided (Pow.nrF0 s3 phi a) (Pow.nrF1 s3 a) fuel (Pow.nrStart (Pow.psiOf a) s3 phi) it).1 ≤ r) :=
+  ⟨Pow.psiOf_bounds ha0 ha1, Pow.nrF0_psi_start_nonneg ha0 ha1 h3 hphi, Pow.nrStart_psi_half s3 phi,
+    fun _ hr hroot fuel it =>
+      Pow.newton_from_left ha0 ha1 h3 hr hroot (Pow.nrF0_psi_start_nonneg ha0 ha1 h3 hphi).1
+        (Pow.nrF0_psi_start_nonneg ha0 ha1 h3 hphi).2 fuel it⟩
+
+/-- [R] unconditional form: for every `a ∈ (0,1)` and interior data the power cone's target has exactly
+one positive root `ρ`; it lies in `[x_ψ(a), x0_old]`; the PRE-FIX code returned `x0_old ≥ ρ` unrefined, while the same
+loop started from `x_ψ(a)` returns a value in `[x_ψ(a), ρ]` for any number of passes. -/
+theorem pow_newton_root {a s3 phi : ℝ} (ha0 : 0 < a) (ha1 : a < 1) (h3 : 0 < s3) (hphi : s3 * s3 < phi) :
+    ∃ ρ, 0 < ρ ∧ Pow.nrF0 s3 phi a ρ = 0 ∧ (∀ ρ', 0 < ρ' → Pow.nrF0 s3 phi a ρ' = 0 → ρ' = ρ) ∧
+      Pow.nrStart (Pow.psiOf a) s3 phi ≤ ρ ∧ ρ ≤ (Pow.newtonRaphsonOld s3 phi a).1 ∧
+      (∀ fuel it : Nat,
+        (Nonsym.newtonRaphsonOnesided (Pow.nrF0 s3 phi a) (Pow.nrF1 s3 a) fuel (Pow.nrStart (Pow.psiOf a) s3 phi) it).1 ≤ ρ) := by
+  obtain ⟨ρ, hρ, hroot, hlo, hhi⟩ := Pow.exists_root ha0 ha1 h3 hphi
+  refine ⟨ρ, hρ, hroot, fun ρ' hρ' hroot' => Pow.root_unique ha0 ha1 h3 hρ hroot hρ' hroot', hlo, ?_, ?_⟩
+  · rw [Pow.newtonRaphsonOld_returns_start ha0 ha1 h3 hphi]; exact hhi
+  · intro fuel it
+    exact (Pow.newton_from_left ha0 ha1 h3 hρ hroot (Pow.nrF0_psi_start_nonneg ha0 ha1 h3 hphi).1
+      (Pow.nrF0_psi_start_nonneg ha0 ha1 h3 hphi).2 fuel it).2.2
+
+/-! ### the power cone's scalar solve since /repo 54b486f (start `ψ(a) = 1/(a²+(1−a)²)`) -/
+
+/-- [R] **`_newton_raphson_powcone` as it is now** (`Pow.nrX0`, `Pow.newtonRaphson`).  For every
+`a ∈ (0,1)`, `s₃ > 0`, `φ > s₃²`: the model's start is `x_ψ(a)` of the family `Pow.nrStart`; the target
+has exactly one positive root `ρ`; the start is positive with `f0(x0) ≥ 0`, i.e. **left of the root**;
+every partial run of the loop (any number of passes) stays in `[x0, ρ]` — the iterates increase
+monotonically and never pass the root; the returned value `x` satisfies `x0 ≤ x ≤ ρ`.
+**What the stopping rule guarantees:** either all 100 passes were used, or at the returned point the
+Newton step `dx = f0(x)/|f1(x)|` satisfies `dx < ε` or `|dx/x| < √ε`, or `|f1(x)| < ε`; and in every
+case the distance to the root is bounded by the residual: `0 ≤ ρ − x ≤ f0(x)/|f1(ρ)|`
+(`≤ dx·|f1(x)|/|f1(ρ)|`). -/
+theorem pow_newton_onesided_code {a s3 phi : ℝ} (ha0 : 0 < a) (ha1 : a < 1) (h3 : 0 < s3)
+    (hphi : s3 * s3 < phi) :
+    Pow.nrX0 a s3 phi = Pow.nrStart (Pow.psiOf a) s3 phi ∧
+    ∃ ρ, 0 < ρ ∧ Pow.nrF0 s3 phi a ρ = 0 ∧ (∀ ρ', 0 < ρ' → Pow.nrF0 s3 phi a ρ' = 0 → ρ' = ρ) ∧
+      0 < Pow.nrX0 a s3 phi ∧ 0 ≤ Pow.nrF0 s3 phi a (Pow.nrX0 a s3 phi) ∧
+      (∀ fuel it : Nat,
+        Pow.nrX0 a s3 phi ≤ (Nonsym.newtonRaphsonOnesided (Pow.nrF0 s3 phi a) (Pow.nrF1 s3 a) fuel (Pow.nrX0 a s3 phi) it).1 ∧
+        (Nonsym.newtonRaphsonOnesided (Pow.nrF0 s3 phi a) (Pow.nrF1 s3 a) fuel (Pow.nrX0 a s3 phi) it).1 ≤ ρ) ∧
+      Pow.nrX0 a s3 phi ≤ (Pow.newtonRaphson s3 phi a).1 ∧ (Pow.newtonRaphson s3 phi a).1 ≤ ρ ∧
+      ρ - (Pow.newtonRaphson s3 phi a).1
+        ≤ Pow.nrF0 s3 phi a (Pow.newtonRaphson s3 phi a).1 / (-(Pow.nrF1 s3 a ρ)) ∧
+      ((Pow.newtonRaphson s3 phi a).2 = 100 ∨
+        Nonsym.NewtonStopped (Pow.nrF0 s3 phi a) (Pow.nrF1 s3 a) (Pow.newtonRaphson s3 phi a).1) := by
+  refine ⟨Pow.nrX0_eq_start a s3 phi, ?_⟩
+  obtain ⟨ρ, hρ, hroot, huniq, hx0, hf0, hlo, hhi, herr, hst⟩ := Pow.newtonRaphson_onesided ha0 ha1 h3 hphi
+  exact ⟨ρ, hρ, hroot, huniq, hx0, hf0,
+    fun fuel it => Pow.newton_iterates_monotone ha0 ha1 h3 hphi hρ hroot fuel it, hlo, hhi, herr, hst⟩
+
+/-- [R] **conjugacy of the code's actual `PowerCone::gradient_primal`**, conditional only on the loop
+having converged: for every `a ∈ (0,1)` and every interior `s` with `|s₃| > ε`, if the value returned
+by `_newton_raphson_powcone` is a root of its target (`f0(x) = 0`; by `pow_newton_onesided_code` the
+returned `x` is always in `[x0, ρ]` with `ρ − x ≤ f0(x)/|f1(ρ)|`, so this asks that the last residual
+is zero), then `g = gradient_primal(s)` satisfies `−g ∈ int K*`, `∇f*(−g) = −s` and `⟨s, g⟩ = −3`.
+For `a = ½` the hypothesis holds outright (`pow_conjugacy_code_half`).  What remains measured, not
+proved: the size of the final residual in floating point (harness oracle `pow.gradient_primal`,
+now at the same tolerance as the other two cones). -/
+theorem pow_conjugacy_code {a s0 s1 s2 : ℝ} (ha0 : 0 < a) (ha1 : a < 1)
+    (hs : PowPrimalInterior a s0 s1 s2) (heps : FloatLike.eps < |s2|)
+    (hconv : Pow.nrF0 |s2| (powf s0 (2 * a) * powf s1 (2 - a * 2)) a
+      (Pow.newtonRaphson |s2| (powf s0 (2 * a) * powf s1 (2 - a * 2)) a).1 = 0) :
+    let g := Pow.gradientPrimal a (s0, s1, s2)
+    PowDualInterior a (-g.1) (-g.2.1) (-g.2.2) ∧
+    Pow.gradDual a (-g.1, -g.2.1, -g.2.2) = (-s0, -s1, -s2) ∧
+    g.1 * s0 + g.2.1 * s1 + g.2.2 * s2 = -3 := by
+  obtain ⟨h0, h1, hlt⟩ := hs
+  have h2 : 0 < |s2| := lt_trans Nonsym.real_eps_pos heps
+  have hs2 : s2 ≠ 0 := abs_pos.mp h2
+  have hphi : |s2| * |s2| < powf s0 (2 * a) * powf s1 (2 - a * 2) := by
+    simp only [Nonsym.real_powf_eq]
+    have e : (2 : ℝ) - a * 2 = 2 * (1 - a) := by ring
+    rw [e, Pow.rpow_two_mul h0, Pow.rpow_two_mul h1, ← mul_pow, ← sq]
+    exact pow_lt_pow_left₀ hlt (abs_nonneg _) (by norm_num)
+  obtain ⟨-, ρ, -, -, -, hx0, -, -, hlo, -, -, -⟩ := pow_newton_onesided_code ha0 ha1 h2 hphi
+  have hx : 0 < (Pow.newtonRaphson |s2| (powf s0 (2 * a) * powf s1 (2 - a * 2)) a).1 := lt_of_lt_of_le hx0 hlo
+  have hg : Pow.gradientPrimal a (s0, s1, s2) =
+      Pow.gradientPrimalOf a (Pow.newtonRaphson |s2| (powf s0 (2 * a) * powf s1 (2 - a * 2)) a).1 s0 s1 s2 := by
+    unfold Pow.gradientPrimal
+    simp only [real_fabs_eq, if_pos heps]
+  simp only [hg]
+  obtain ⟨c1, c2⟩ := pow_conjugacy ha0 ha1 h0 h1 hs2 hx hconv
+  exact ⟨c1, c2, pow_gradient_primal_inner (ne_of_gt h0) (ne_of_gt h1)⟩
+
+/-- [R] for `a = ½` the code's start is the exact root, the loop returns it after one pass, and
+conjugacy of `gradient_primal` holds with no convergence hypothesis. -/
+theorem pow_conjugacy_code_half {s0 s1 s2 : ℝ} (hs : PowPrimalInterior (1 / 2) s0 s1 s2)
+    (heps : FloatLike.eps < |s2|) :
+    let g := Pow.gradientPrimal (1 / 2) (s0, s1, s2)
+    PowDualInterior (1 / 2) (-g.1) (-g.2.1) (-g.2.2) ∧
+    Pow.gradDual (1 / 2) (-g.1, -g.2.1, -g.2.2) = (-s0, -s1, -s2) ∧
+    g.1 * s0 + g.2.1 * s1 + g.2.2 * s2 = -3 := by
+  apply pow_conjugacy_code (by norm_num) (by norm_num) hs heps
+  obtain ⟨h0, h1, hlt⟩ := hs
+  have h2 : 0 < |s2| := lt_trans Nonsym.real_eps_pos heps
+  have hphi : |s2| * |s2| < powf s0 (2 * (1 / 2)) * powf s1 (2 - 1 / 2 * 2) := by
+    simp only [Nonsym.real_powf_eq]
+    have e : (2 : ℝ) - 1 / 2 * 2 = 2 * (1 - 1 / 2) := by ring
+    rw [e, Pow.rpow_two_mul h0, Pow.rpow_two_mul h1, ← mul_pow, ← sq]
+    exact pow_lt_pow_left₀ hlt (abs_nonneg _) (by norm_num)
+  have hroot : Pow.nrF0 |s2| (powf s0 (2 * (1 / 2)) * powf s1 (2 - 1 / 2 * 2)) (1 / 2)
+      (Pow.nrX0 (1 / 2) |s2| (powf s0 (2 * (1 / 2)) * powf s1 (2 - 1 / 2 * 2))) = 0 := by
+    rw [Pow.nrX0_eq_start, Pow.nrStart_psi_half]
+    exact Pow.nrF0_start_half h2 hphi
+  have hret : Pow.newtonRaphson |s2| (powf s0 (2 * (1 / 2)) * powf s1 (2 - 1 / 2 * 2)) (1 / 2)
+      = (Pow.nrX0 (1 / 2) |s2| (powf s0 (2 * (1 / 2)) * powf s1 (2 - 1 / 2 * 2)), 1) := by
+    unfold Pow.newtonRaphson
+    exact Nonsym.newton_fixed_point _ _ 99 _ 0 hroot
+  rw [hret]
+  exact hroot
+
+/-! ## Generalised power cone: Hessian representation, scaling test, no third-order term -/
+
+
+/-- [R] (all dimensions) at an interior point of the dual cone `update_dual_grad_H` succeeds and
+stores, besides the gradient, the Hessian representation `H = D + p pᵀ − q qᵀ − r rᵀ` in the closed
+forms `GenPow.hD1/hD2/hPU/hPW/hQ/hR` (`φ = Π(uᵢ/αᵢ)^{2αᵢ}`, `W = ‖w‖²`, `ζ = φ − W`,
+`p0 = √(φ(φ+W)/2)`, `q0 = √(ζφ/2)`, `r1 = 2√(ζ/(φ+W))`, `τᵢ = 2αᵢ/uᵢ`):
+`d1ᵢ = τᵢφ/(ζuᵢ) + (1−αᵢ)/uᵢ²`, `d2 = 2/ζ`, `p = (p0/ζ)τ ⊕ (−2φ/p0/ζ)w`, `q = τ(q0/ζ)`, `r = (r1/ζ)w`. -/
+theorem genpow_hess_entries (al u w : List ℝ) (hlen : al.length = u.length)
+    (h : GenPowDualInterior al u w) :
+    ∃ D, GenPow.updateDualGradH al.toArray (u ++ w).toArray = .ok D ∧
+      D.grad.toList =
+        (al.zip u).map (fun p => GenPow.gradU (GenPow.prodPhi al u) (GenPow.prodPhi al u - GenPow.sumSq w) p.1 p.2)
+          ++ w.map (GenPow.gradW (GenPow.prodPhi al u - GenPow.sumSq w)) ∧
+      D.d1.toList = (al.zip u).map (fun p =>
+        GenPow.hD1 (GenPow.prodPhi al u) (GenPow.prodPhi al u - GenPow.sumSq w) p.1 p.2) ∧
+      D.d2 = GenPow.hD2 (GenPow.prodPhi al u - GenPow.sumSq w) ∧
+      D.p.toList = (al.zip u).map (fun p =>
+          GenPow.hPU (GenPow.prodPhi al u) (GenPow.prodPhi al u - GenPow.sumSq w) (GenPow.sumSq w) p.1 p.2)
+        ++ w.map (GenPow.hPW (GenPow.prodPhi al u) (GenPow.prodPhi al u - GenPow.sumSq w) (GenPow.sumSq w)) ∧
+      D.q.toList = (al.zip u).map (fun p =>
+        GenPow.hQ (GenPow.prodPhi al u) (GenPow.prodPhi al u - GenPow.sumSq w) p.1 p.2) ∧
+      D.r.toList = w.map (GenPow.hR (GenPow.prodPhi al u) (GenPow.prodPhi al u - GenPow.sumSq w) (GenPow.sumSq w)) := by
+  refine GenPow.updateDualGradH_data al u w hlen ?_
+  have := h.2
+  unfold GenPow.prodPhi GenPow.sumSq
+  linarith
+
+/-- [R] (all dimensions, every pair of coordinates of both classes) the stored representation
+`H = D + p pᵀ − q qᵀ − r rᵀ` (`q` on the `u`-block, `r` on the `w`-block, `D = diag(d1, d2·I)`) is
+entry by entry the Jacobian of the stored gradient, i.e. the Hessian of the dual barrier
+(`genpow_grad_is_derivative`).  The coordinate that varies is singled out by a zipper
+(`u = u₁ ++ t :: u₂` with exponent `a`, resp. `w = w₁ ++ t :: w₂`); `(b, s)` / `wk` are the
+exponent/value of the *other* coordinate whose gradient entry is differentiated.  Writing
+`φ, ζ, W` for the base-point values:
+* `∂gradU(a,·)/∂uᵢ = d1ᵢ + pᵢ² − qᵢ²`, `∂gradU(b,s)/∂uᵢ = pₖpᵢ − qₖqᵢ`, `∂gradU(b,s)/∂wⱼ = pₖ p_{d+j}`,
+* `∂gradW(wk)/∂uᵢ = p_{d+k} pᵢ`, `∂gradW(·)/∂wⱼ = d2 + p_{d+j}² − rⱼ²`, `∂gradW(wk)/∂wⱼ = p_{d+k}p_{d+j} − rₖrⱼ`. -/
+theorem genpow_hess_is_derivative :
+    (∀ (a1 a2 u1 u2 w : List ℝ) (a t : ℝ), a1.length = u1.length → (∀ x ∈ a1 ++ a :: a2, 0 < x) →
+      GenPowDualInterior (a1 ++ a :: a2) (u1 ++ t :: u2) w →
+      let Φ := fun x => GenPow.prodPhi (a1 ++ a :: a2) (u1 ++ x :: u2)
+      let W := GenPow.sumSq w
+      HasDerivAt (fun x => GenPow.gradU (Φ x) (Φ x - W) a x)
+        (GenPow.hD1 (Φ t) (Φ t - W) a t + GenPow.hPU (Φ t) (Φ t - W) W a t * GenPow.hPU (Φ t) (Φ t - W) W a t
+          - GenPow.hQ (Φ t) (Φ t - W) a t * GenPow.hQ (Φ t) (Φ t - W) a t) t ∧
+      (∀ b s : ℝ, s ≠ 0 → HasDerivAt (fun x => GenPow.gradU (Φ x) (Φ x - W) b s)
+        (GenPow.hPU (Φ t) (Φ t - W) W b s * GenPow.hPU (Φ t) (Φ t - W) W a t
+          - GenPow.hQ (Φ t) (Φ t - W) b s * GenPow.hQ (Φ t) (Φ t - W) a t) t) ∧
+      (∀ wk : ℝ, HasDerivAt (fun x => GenPow.gradW (Φ x - W) wk)
+        (GenPow.hPW (Φ t) (Φ t - W) W wk * GenPow.hPU (Φ t) (Φ t - W) W a t) t)) ∧
+    (∀ (al u w1 w2 : List ℝ) (t : ℝ), GenPowDualInterior al u (w1 ++ t :: w2) →
+      let φ := GenPow.prodPhi al u
+      let S := fun x => GenPow.sumSq (w1 ++ x :: w2)
+      (∀ b s : ℝ, HasDerivAt (fun x => GenPow.gradU φ (φ - S x) b s)
+        (GenPow.hPU φ (φ - S t) (S t) b s * GenPow.hPW φ (φ - S t) (S t) t) t) ∧
+      HasDerivAt (fun x => GenPow.gradW (φ - S x) x)
+        (GenPow.hD2 (φ - S t) + GenPow.hPW φ (φ - S t) (S t) t * GenPow.hPW φ (φ - S t) (S t) t
+          - GenPow.hR φ (φ - S t) (S t) t * GenPow.hR φ (φ - S t) (S t) t) t ∧
+      (∀ wk : ℝ, HasDerivAt (fun x => GenPow.gradW (φ - S x) wk)
+        (GenPow.hPW φ (φ - S t) (S t) wk * GenPow.hPW φ (φ - S t) (S t) t
+          - GenPow.hR φ (φ - S t) (S t) wk * GenPow.hR φ (φ - S t) (S t) t) t)) := by
+  constructor
+  · intro a1 a2 u1 u2 w a t hlen ha h
+    have ht : 0 < t := h.1 t (by simp)
+    have hpa : 0 < a := ha a (by simp)
+    have hζ : 0 < GenPow.prodPhi (a1 ++ a :: a2) (u1 ++ t :: u2) - GenPow.sumSq w := by
+      have := h.2; unfold GenPow.prodPhi GenPow.sumSq; linarith
+    exact ⟨GenPow.hess_uu_diag a1 a2 u1 u2 w a t hlen hpa ht hζ,
+      fun b s hs => GenPow.hess_uu_off a1 a2 u1 u2 w a t b s hlen hpa ht hs hζ,
+      fun wk => GenPow.hess_wu a1 a2 u1 u2 w a t wk hlen hpa ht hζ⟩
+  · intro al u w1 w2 t h
+    have hζ : 0 < GenPow.prodPhi al u - GenPow.sumSq (w1 ++ t :: w2) := by
+      have := h.2; unfold GenPow.prodPhi GenPow.sumSq; linarith
+    exact ⟨fun b s => GenPow.hess_uw al u w1 w2 t b s hζ, GenPow.hess_ww_diag al u w1 w2 t hζ,
+      fun wk => GenPow.hess_ww_off al u w1 w2 t wk hζ⟩
+
+/-- non-vacuity for `genpow_hess_entries` / `genpow_hess_is_derivative` (both zipper shapes):
+`al = [1/2,1/2]`, `u = [1,1]`, `w = [1/2]`: `φ = 4`, `ζ = 15/4`. -/
+example : GenPowDualInterior ([] ++ (1 / 2 : ℝ) :: [1 / 2]) ([] ++ (1 : ℝ) :: [1]) ([] ++ (1 / 2 : ℝ) :: []) ∧
+    (∀ x ∈ ([] ++ (1 / 2 : ℝ) :: [1 / 2]), 0 < x) ∧
+    ([] : List ℝ).length = ([] : List ℝ).length := by
+  refine ⟨⟨by simp, ?_⟩, by simp, rfl⟩
+  norm_num
+
+/-- [F] `mul_Hs` applies `μ (D + p pᵀ − q qᵀ − r rᵀ)`: on `x = (x1, x2)` the `u`-block entries are
+`μ (d1ᵢ x1ᵢ − ⟨q,x1⟩ qᵢ + ⟨p,x⟩ pᵢ)` and the `w`-block entries `μ (d2 x2ⱼ − ⟨r,x2⟩ rⱼ + ⟨p,x⟩ p_{dim1+j})`;
+`get_Hs` returns `μ·diag(d1, d2 I)`. -/
+theorem genpow_mulHs (D : GenPow.Data ℝ) (pu pw x1 x2 : List ℝ) (mu : ℝ) (hp : D.p.toList = pu ++ pw)
+    (hd : D.d1.toList.length = x1.length) (hq : D.q.toList.length = x1.length)
+    (hpu : pu.length = x1.length) (hr : D.r.toList.length = x2.length) (hpw : pw.length = x2.length) :
+    GenPow.mulHs D mu x1.length (x1 ++ x2).toArray
+      = .ok ((((x1.zip D.d1.toList).zip D.q.toList).zip pu).map (fun t =>
+            mu * (t.1.1.2 * t.1.1.1 - GenPow.ldot D.q.toList x1 * t.1.2
+              + GenPow.ldot (pu ++ pw) (x1 ++ x2) * t.2))
+          ++ ((x2.zip D.r.toList).zip pw).map (fun t =>
+            mu * (D.d2 * t.1.1 - GenPow.ldot D.r.toList x2 * t.1.2
+              + GenPow.ldot (pu ++ pw) (x1 ++ x2) * t.2))).toArray ∧
+    (∀ dim2, (GenPow.getHs D mu dim2).toList
+      = D.d1.toList.map (fun d => mu * d) ++ List.replicate dim2 (mu * D.d2)) :=
+  ⟨GenPow.mulHs_eq_data D pu pw x1 x2 mu hp hd hq hpu hr hpw, fun dim2 => GenPow.getHs_toList D mu dim2⟩
+
+example : ∃ (D : GenPow.Data ℝ) (pu pw x1 x2 : List ℝ), D.p.toList = pu ++ pw ∧
+    D.d1.toList.length = x1.length ∧ D.q.toList.length = x1.length ∧ pu.length = x1.length ∧
+    D.r.toList.length = x2.length ∧ pw.length = x2.length ∧ x1 ≠ [] ∧ x2 ≠ [] :=
+  ⟨⟨#[0, 0], #[1, 2], #[3], #[4], #[5], 6⟩, [1], [2], [7], [8], rfl, rfl, rfl, rfl, rfl, rfl, by simp, by simp⟩
+
+
+/-- [S] the generalised power cone has **no third-order correction**: `higher_correction` is
+`unimplemented!()` and never called; `combined_ds_shift` returns `σμ·grad` (`= σμ ∇f*(z)` by
+`genpow_grad_is_derivative`), whatever the step directions. -/
+theorem genpow_combined_ds_shift (D : GenPow.Data ℝ) (dz ds dz' ds' : Array ℝ) (σμ : ℝ) :
+    GenPow.combinedDsShift D dz ds σμ = D.grad.map (fun g => g * σμ) ∧
+    GenPow.combinedDsShift D dz ds σμ = GenPow.combinedDsShift D dz' ds' σμ := ⟨rfl, rfl⟩
+
+/-- [S] (any scalar type, also `Float`) `backtrack_search` returns `0` or a step whose end point
+passed the cone test. -/
+theorem backtrack_search_post {α : Type} [Add α] [Mul α] [LT α] [DecidableLT α] [OfNat α 0] [OfNat α 1]
+    (dq q : Array α) (aInit aMin step : α) (inCone : Array α → Bool) (fuel : Nat) (a : α)
+    (h : Nonsym.backtrackSearch dq q aInit aMin step inCone fuel = .ok a) :
+    a = 0 ∨ inCone (Vec.waxpby 1 q a dq) = true :=
+  Nonsym.backtrackSearch_post dq q aMin step inCone fuel aInit a h
+
+/-- [R] `GenPowerCone::update_scaling` tests `ζ > 0` but not `u > 0`.
+(i) The flag it returns is exactly `ζ = Π(uᵢ/αᵢ)^{2αᵢ} − ‖w‖² > 0`.
+(ii) On `u > 0` that is membership in `int K*` (= `is_dual_feasible`).
+(iii) Without `u > 0` it is not: `α = (½,½)`, `z = (−1,−1,0)` has `ζ = 4`, the update is accepted, but
+`z ∉ K*` — so "`update_scaling` returns true ⇒ `z ∈ int K*`" is **false** as a statement about the
+function alone (replayed on the implementation by the harness, channel `genpow.update_scaling`). -/
+theorem genpow_update_scaling_test :
+    (∀ (al u w : List ℝ) (st : GenPow.State ℝ) (mu : ℝ), al.length = u.length →
+      ((∃ st', GenPow.updateScaling al.toArray st (u ++ w).toArray mu = .ok (true, st')) ↔
+        0 < GenPow.prodPhi al u - GenPow.sumSq w)) ∧
+    (∀ (al u w : List ℝ) (st : GenPow.State ℝ) (mu : ℝ), al.length = u.length → (∀ a ∈ al, 0 < a) →
+      (∀ x ∈ u, 0 < x) →
+      ((∃ st', GenPow.updateScaling al.toArray st (u ++ w).toArray mu = .ok (true, st')) ↔
+        GenPowDualInterior al u w)) ∧
+    (∀ (st : GenPow.State ℝ) (mu : ℝ),
+      (∃ st', GenPow.updateScaling #[1 / 2, 1 / 2] st #[-1, -1, 0] mu = .ok (true, st')) ∧
+        GenPow.isDualFeasible (#[1 / 2, 1 / 2] : Array ℝ) #[-1, -1, 0] = .ok false) := by
+  refine ⟨fun al u w st mu hlen => GenPow.updateScaling_flag al u w hlen st mu, ?_,
+    fun st mu => GenPow.updateScaling_accepts_exterior st mu⟩
+  intro al u w st mu hlen ha hu
+  rw [GenPow.updateScaling_sound al u w hlen ha hu st mu, (genpow_membership al u w hlen ha).2]
+
+/-- [R] why the missing `u > 0` test is **not reachable inside `solve()`**: the dual iterate only
+moves by steps returned by `step_length`, whose backtracking search accepts an end point only if
+`is_dual_feasible` (which does test `u > 0`) holds there; every point accepted by `is_dual_feasible`
+passes the `ζ` test, so the next `update_scaling` is accepted *and* the point is in `int K*`.
+(The solver then scales the step by `max_step_fraction ≤ 1`; the open cone is convex, so the actual
+iterate lies between two interior points — that last step is not formalised.) -/
+theorem genpow_linesearch_keeps_interior (al dz ds z s : Array ℝ) (step aMin aMax : ℝ) (fuel : Nat)
+    (ha : ∀ a ∈ al.toList, 0 < a) (az as : ℝ)
+    (h : GenPow.stepLength al dz ds z s step aMin aMax fuel = .ok (az, as)) (hne : az ≠ 0)
+    (st : GenPow.State ℝ) (mu : ℝ) :
+    GenPow.isDualFeasible al (Vec.waxpby 1 z az dz) = .ok true ∧
+      ∃ D, GenPow.updateScaling al st (Vec.waxpby 1 z az dz) mu = .ok (true, ⟨D, mu, Vec.waxpby 1 z az dz⟩) :=
+  GenPow.stepLength_then_updateScaling al dz ds z s step aMin aMax fuel ha az as h hne st mu
+
+/-- [R] (all dimensions) the scalar solve `_newton_raphson_genpowcone` of `gradient_primal` is a genuine
+one-sided Newton iteration.  For exponents `αᵢ > 0`, `Σαᵢ = 1`, `p > 0`, `r = ‖w‖ > 0` and an interior
+point (`r² < φ = Π pᵢ^{2αᵢ}`), with `ψ = 1/Σαᵢ²` as stored by `GenPowerConeData::new`:
+`f1 = nrF1` is the derivative of the target `f0 = nrF0` on `x > 0`, `f0` is strictly decreasing and
+convex there, it has exactly one positive root `ρ`, the start `x0 = nrX0 r φ ψ` satisfies `0 < x0 ≤ ρ`
+(`f0(x0) ≥ 0`), and the value returned by the model of `_newton_raphson_genpowcone` lies in `[x0, ρ]`
+(`ρ ≤ x_n`, the start with `ψ = n`).  Contrast `pow_newton_start_right_of_root`: the 3-d power cone uses
+`ψ = 2 ≥ 1/(a²+(1-a)²)` and starts right of the root. -/
+theorem genpow_newton_onesided {r ψ : ℝ} {p al : List ℝ} (hal : ∀ a ∈ al, 0 < a) (hp : ∀ x ∈ p, 0 < x)
+    (hlen : al.length = p.length) (hsum : al.sum = 1) (hr : 0 < r)
+    (hψ : ψ = 1 / Vec.sumsq al.toArray)
+    (hint : r * r < ((al.zip p).map (fun q => q.2 ^ (2 * q.1))).prod) :
+    (∀ x, 0 < x → HasDerivAt (GenPow.nrF0 r p.toArray al.toArray) (GenPow.nrF1 r al.toArray x) x) ∧
+    (∀ x, 0 < x → GenPow.nrF1 r al.toArray x < 0) ∧
+    StrictAntiOn (GenPow.nrF0 r p.toArray al.toArray) (Set.Ioi 0) ∧
+    ConvexOn ℝ (Set.Ioi 0) (GenPow.nrF0 r p.toArray al.toArray) ∧
+    (p.toArray.toList.zip al.toArray.toList).foldl (fun phi q => phi * powf q.1 (2 * q.2)) 1
+      = ((al.zip p).map (fun q => q.2 ^ (2 * q.1))).prod ∧
+    ∃ ρ, 0 < ρ ∧ GenPow.nrF0 r p.toArray al.toArray ρ = 0 ∧
+      (∀ ρ', 0 < ρ' → GenPow.nrF0 r p.toArray al.toArray ρ' = 0 → ρ' = ρ) ∧
+      0 < GenPow.nrX0 r (((al.zip p).map (fun q => q.2 ^ (2 * q.1))).prod) ψ ∧
+      0 ≤ GenPow.nrF0 r p.toArray al.toArray (GenPow.nrX0 r (((al.zip p).map (fun q => q.2 ^ (2 * q.1))).prod) ψ) ∧
+      GenPow.nrX0 r (((al.zip p).map (fun q => q.2 ^ (2 * q.1))).prod) ψ
+        ≤ (GenPow.newtonRaphson r p.toArray (((al.zip p).map (fun q => q.2 ^ (2 * q.1))).prod) al.toArray ψ).1 ∧
+      (GenPow.newtonRaphson r p.toArray (((al.zip p).map (fun q => q.2 ^ (2 * q.1))).prod) al.toArray ψ).1 ≤ ρ := by
+  rw [GenPow.psi_model_eq] at hψ
+  have hint' : r * r < GenPow.prodPhiP al p := hint
+  obtain ⟨ρ, h1, h2, h3, h4, h5, h6, -⟩ := GenPow.newtonRaphson_bracket hal hp hlen hsum hr hψ hint'
+  refine ⟨fun x hx => GenPow.nrF0_hasDerivAt hal hlen hr hx, fun x hx => GenPow.nrF1_neg hal hsum hr hx,
+    GenPow.nrF0_strictAnti hal hlen hsum hr, GenPow.nrF0_convexOn hal hlen hsum hr,
+    GenPow.phiPrimal_fold_eq al p, ρ, h1, h2, h3, h4, ?_, h5, h6⟩
+  exact (GenPow.nrF0_start_nonneg hal hp hlen hsum hr hψ hint').2
+
+/-- non-vacuity: `α = (½, ½)`, `p = (2, 2)`, `r = 1`, `ψ = 2` -/
+example : (∀ a ∈ [(1 / 2 : ℝ), 1 / 2], 0 < a) ∧ (∀ x ∈ [(2 : ℝ), 2], 0 < x) ∧
+    [(1 / 2 : ℝ), 1 / 2].length = [(2 : ℝ), 2].length ∧ [(1 / 2 : ℝ), 1 / 2].sum = 1 ∧ (0 : ℝ) < 1 ∧
+    (2 : ℝ) = 1 / Vec.sumsq [(1 / 2 : ℝ), 1 / 2].toArray ∧
+    (1 : ℝ) * 1 < (([(1 / 2 : ℝ), 1 / 2].zip [(2 : ℝ), 2]).map (fun q => q.2 ^ (2 * q.1))).prod := by
+  obtain ⟨h1, h2, h3, h4, h5, h6, h7⟩ := GenPow.hyps_nonvacuous
+  rw [← GenPow.psi_model_eq] at h6
+  exact ⟨h1, h2, h3, h4, h5, h6, h7⟩
+
+
+/-! ## Exponential cone: starting point and Wright-omega -/
+
+/-- [R] `unit_initialization` (exponential cone): the hard-coded start point `s = z = c` lies in
+the interior of both `K` and `K*`, and is the central point with `μ = 1` up to a certified
+residual: `‖∇f*(c) + c‖_∞ ≤ 5e-9` and `|⟨c, c⟩/3 − 1| ≤ 5e-16`.  (The exact residual is
+enclosed componentwise by `Exp.unitInit_residual_enclosure`; it is non-zero, about
+`(-4.56e-9, 7.8e-10, -4.16e-9)`, i.e. the constants are correct to ~9 digits.) -/
+theorem exp_unit_initialization_central :
+    let c := Exp.unitInitialization (α := ℝ)
+    let g := Exp.gradDual c
+    ExpDualInterior c.1 c.2.1 c.2.2 ∧ ExpPrimalInterior c.1 c.2.1 c.2.2 ∧
+    |g.1 + c.1| ≤ 5e-9 ∧ |g.2.1 + c.2.1| ≤ 5e-9 ∧ |g.2.2 + c.2.2| ≤ 5e-9 ∧
+    |(c.1 * c.1 + c.2.1 * c.2.1 + c.2.2 * c.2.2) / 3 - 1| ≤ 5e-16 := by
+  intro c g
+  obtain ⟨r0, r1, r2⟩ := Exp.unitInit_residual_small
+  exact ⟨(exp_dualInt_iff _ _ _).mp Exp.unitInit_dualInt, Exp.unitInit_primalInt,
+    r0, r1, r2, Exp.unitInit_mu⟩
+
+/-- [R] what the start point approximates: an interior `z` of `K*` with `s = z = -∇f*(z)`
+(the central point) has `μ = ⟨s, z⟩/3 = 1`; in general the deviation of `⟨z, z⟩` from `3` is the
+central-point residual paired with `z`. -/
+theorem exp_central_point_mu_one {z0 z1 z2 : ℝ} (h : ExpDualInterior z0 z1 z2) :
+    (z0 * z0 + z1 * z1 + z2 * z2 - 3
+      = ((Exp.gradDual (z0, z1, z2)).1 + z0) * z0 + ((Exp.gradDual (z0, z1, z2)).2.1 + z1) * z1
+        + ((Exp.gradDual (z0, z1, z2)).2.2 + z2) * z2) ∧
+    (Exp.gradDual (z0, z1, z2) = (-z0, -z1, -z2) → (z0 * z0 + z1 * z1 + z2 * z2) / 3 = 1) := by
+  have hi := (exp_dualInt_iff z0 z1 z2).mpr h
+  exact ⟨Exp.central_residual_identity hi, fun hc => (Exp.central_point_mu_one hi hc).2⟩
+
+example : ExpDualInterior (Exp.unitInitialization (α := ℝ)).1 (Exp.unitInitialization (α := ℝ)).2.1
+    (Exp.unitInitialization (α := ℝ)).2.2 := exp_unit_initialization_central.1
+
+/-- [R] `_wright_omega` is "series start value, then exactly two refinement steps", and an exact
+solution (`residual = 0`) is a fixed point of the refinement step; e.g. `ω(1) = 1` exactly. -/
+theorem exp_wright_omega_structure {z : ℝ} (hz : 0 ≤ z) :
+    Exp.wrightOmega z = .ok (Exp.wrightStep (Exp.wrightStep (Exp.wrightStart z,
+        z - Exp.wrightStart z - Nonsym.logsafe (Exp.wrightStart z)))).1 ∧
+    (∀ w : ℝ, Exp.wrightStep (w, 0) = (w, 0)) ∧
+    (z - Exp.wrightStart z - Nonsym.logsafe (Exp.wrightStart z) = 0 →
+      Exp.wrightOmega z = .ok (Exp.wrightStart z)) :=
+  ⟨Exp.wrightOmega_eq hz, Exp.wrightStep_fixed, Exp.wrightOmega_of_start_exact hz⟩
+
+example : Exp.wrightOmega (1 : ℝ) = .ok 1 := Exp.wrightOmega_one
+
+
 
 end Clarabel.C14
